@@ -28,7 +28,7 @@ BIN_OPS = ["+", "-", "*", "//", "%", "&", "|", "^", "==", "<", ">="]
 SHIFT_OPS = ["<<", ">>"]
 UNARY_OPS = ["neg", "inv", "abs", "str", "intstr", "fmt_d", "fmt_x", "fmt_X", "fmt_o", "float_rt", "rust"]
 PARSE_OPS = ["parse", "parseU", "parseS", "parse0"]
-HUGE_OPS = ["shlshr", "shlhuge", "shrhuge"]
+HUGE_OPS = ["shlshr", "shl2shr", "shlhuge", "shrhuge"]
 PART_OPS = {"arith": ["+", "-", "*"], "divmod": ["//", "%"], "bits": ["&", "|", "^"], "cmp": ["==", "<", ">="],
             "shift": SHIFT_OPS, "unary": UNARY_OPS, "parse": PARSE_OPS, "huge": HUGE_OPS}
 MAGS = ["small", "2^31", "2^32", "2^53", "2^63", "2^64", "big"]
@@ -129,7 +129,7 @@ def judge_value(c, o):
         return "panic"
     if exp == "huge":
         return None if v.startswith("error:") else "a value for an unrepresentable result"
-    if op == "shlshr" and v == "error:overflow":
+    if op in ("shlshr", "shl2shr") and v == "error:overflow":
         return None  # a clean refusal of a very large shift is admitted; a wrong value is not
     if exp.startswith("error:"):
         return None if v == exp else "expected %s" % exp
